@@ -44,3 +44,12 @@ From Signalo Require Base.Arith Model.Generic Proofs.Generic.
 Theorem C06_generic_kalman : forall c s zu, match Signalo.Model.Generic.g_k_process Signalo.Base.Arith.Qar (Signalo.Model.Smooth.kr c) (Signalo.Model.Smooth.kq c) (Signalo.Model.Smooth.ka c) (Signalo.Model.Smooth.kb c) (Signalo.Model.Smooth.kc c) s zu with Some (s', y) => Some (Signalo.Proofs.Generic.k_of s', y) | None => None end = Signalo.Model.Smooth.k_process c (Signalo.Proofs.Generic.k_of s) zu.
 Proof. exact Signalo.Proofs.Generic.gq_kalman. Qed.
 Print Assumptions C06_generic_kalman.
+
+(* No false alarm: the boolean reading of this property that the correspondence check evaluates on the IMPLEMENTATION's
+   outputs (Check/C06.v, verdict bit 2) can never fail on outputs that agree with the model (bit 1 clear); side conditions,
+   where there are any, are boolean and say which recorded observations the model comparison does not cover. *)
+From Coq Require Import NArith.
+From Signalo Require Base.Report Check.C06 Proofs.Sound_C06.
+Theorem C06_checker_no_false_alarm : forall c : Signalo.Check.C06.case, N.land (Signalo.Base.Report.code (Signalo.Check.C06.check c)) 3 <> 2%N.
+Proof. exact Signalo.Proofs.Sound_C06.C06_check_sound. Qed.
+Print Assumptions C06_checker_no_false_alarm.
